@@ -53,7 +53,8 @@
        time): a property of the select machine, not a defect of the protocol.
      PROVED for every schedule and every oracle that is `await_honest` (a Prop/boolean on the
        schedule, evaluated on the worker state each executor step starts from):
-         (a) a slice is executed only for a process that has no result yet, and
+         (a) a slice is executed only for a process that has no result yet (needed:
+             parked_await_refuted_for_resurrecting_oracle), and
          (b) a slice that ends with the Await action for ts leaves no key outside ts in `awaiting`:
        await_backed : every None entry of an unfailed process is backed — the awaiter is registered in
          awaiters_for_target ON THE TARGET'S OWN WORKER (and the target is in its `awaited` set),
@@ -307,6 +308,19 @@ Theorem C04_parked_await_refuted_for_dishonest_oracle :
     quiescent s /\ ~ answer_in_flight s 0 1.
 Proof. exact parked_await_refuted_for_dishonest_oracle. Qed.
 Print Assumptions C04_parked_await_refuted_for_dishonest_oracle.
+
+(* the other half of the premise is needed too: a slice run for a process that a failure notification
+   has completed in place, finishing Ok, followed by a client resume *)
+Theorem C04_parked_await_refuted_for_resurrecting_oracle :
+  exists s nd pr nd1,
+    run (init 2) resurrect_schedule = Good s /\
+    await_honest_runb (init 2) resurrect_schedule = false /\ await_honest_runb (init 2) (firstn 7 resurrect_schedule) = true /\
+    nth_error (s_nodes s) 0 = Some nd /\ mem 0 (w_selecting (n_w nd)) = true /\
+    alookup 0 (w_procs (n_w nd)) = Some pr /\ p_res pr = None /\ alookup 1 (p_awaiting pr) = Some None /\
+    nth_error (s_nodes s) 1 = Some nd1 /\ result_of (n_w nd1) 1 = Some (RErr 7) /\
+    quiescent s /\ ~ answer_in_flight s 0 1.
+Proof. exact parked_await_refuted_for_resurrecting_oracle. Qed.
+Print Assumptions C04_parked_await_refuted_for_resurrecting_oracle.
 
 Theorem C04_await_premise_decidable : forall sigma s, await_honest_runb s sigma = true -> await_honest_run s sigma.
 Proof. exact await_honest_runb_sound. Qed.
